@@ -464,6 +464,53 @@ impl Action {
 }
 
 
+// ================================================================ C17 (third clause): the action trace ends in the action of the live pipeline
+// shims: the explain trace (unit rtr) and the accessors of a route used here
+#[verifier::external_body] #[verifier::accept_recursive_types(T)] pub struct Trace<T> { h: std::marker::PhantomData<T> }
+pub uninterp spec fn tr_routes(traces: Seq<Trace<Rule>>) -> Seq<RouteRef>;
+impl<T> Trace<T> {
+    // under contract in unit rtr (C17): the routes stored in the trace forest
+    #[verifier::external_body] pub fn get_routes_from_traces(traces: &[Trace<Rule>]) -> (r: Vec<RouteRef>) ensures r@ == tr_routes(traces@) { unimplemented!() }
+}
+impl Route<Rule> {
+    #[verifier::external_body] pub fn handler(&self) -> (r: &Rule) ensures *r == route_rule(*self) { unimplemented!() }
+}
+pub uninterp spec fn route_rule(r: Route<Rule>) -> Rule;
+impl Clone for Rule { #[verifier::external_body] fn clone(&self) -> (r: Self) ensures r == *self { unimplemented!() } }
+impl Clone for Action { #[verifier::external_body] fn clone(&self) -> (r: Self) ensures r == *self { unimplemented!() } }
+#[verifier::external_body] pub broadcast proof fn axiom_arc_cloned_rt(a: RouteRef, b: RouteRef) ensures #[trigger] cloned::<RouteRef>(a, b) ==> a == b {}
+// std sort_by_key on the priority: assumed to produce `prio_sorted` of its input (see c11::axiom_sort_prio for what is assumed about it)
+pub uninterp spec fn prio_sorted(s: Seq<RouteRef>) -> Seq<RouteRef>;
+#[verifier::external_body]
+pub fn outl_sort_by_priority(routes: &mut Vec<RouteRef>)
+    ensures final(routes)@ == prio_sorted(old(routes)@),
+{ /* verbatim: routes.sort_by_key(|a| a.priority()); */ unimplemented!() }
+//@@ item src/action/trace.rs :: struct TraceAction
+impl TraceAction {
+    // one entry per processed rule; the action of the LAST entry is the reference fold over the traced rules in priority order
+    //@@ fn src/action/trace.rs :: impl TraceAction / fn from_trace_rules -> r
+    //@| requires forall|x: RouteRef| rr(x, request).action is None ==> !rr(x, request).stop,
+    //@| ensures r@.len() <= prio_sorted(tr_routes(traces@)).len(),
+    //@|     r@.len() > 0 ==> av(r@.last().action) == fold_from(prio_sorted(tr_routes(traces@)), request, 0, av_default()),
+    //@|     r@.len() == 0 ==> prio_sorted(tr_routes(traces@)).len() == 0,
+    //@|     forall|i: int| 0 <= i < r@.len() ==> (#[trigger] r@[i]).rule == route_rule(*prio_sorted(tr_routes(traces@))[i]),
+    //@| outline `routes.sort_by_key(|a| a.priority());` => `outl_sort_by_priority(&mut routes);`
+    //@| replace `let mut traces_action = Vec::new();` => `let mut traces_action: Vec<TraceAction> = Vec::new();` :: type ascription only (Verus needs the element type before the first ghost use)
+    //@| forlabel 0: it
+    //@| attr #[verifier::loop_isolation(false)]
+    //@| entry broadcast use axiom_arc_cloned_rt;
+    //@| loopbefore 0: let ghost rs = routes@;
+    //@| loop 0: invariant iter_ok(it.history@, it.index@, it.snapshot@.remaining(), rs), rs == prio_sorted(tr_routes(traces@)),
+    //@|         traces_action@.len() == it.index@,
+    //@|         fold_from(rs, request, it.index@, av(current_action)) == fold_from(rs, request, 0, av_default()),
+    //@|         it.index@ > 0 ==> traces_action@.last().action == current_action,
+    //@|         it.index@ == 0 ==> av(current_action) == av_default(),
+    //@|         forall|i: int| 0 <= i < traces_action@.len() ==> (#[trigger] traces_action@[i]).rule == route_rule(*rs[i]),
+    //@| loophead 0: let ghost a0 = av(current_action); let ghost ta0 = traces_action@; proof { assert(rs[it.index@ as int] == route); }
+    //@| before `if stop {`: proof { assert(traces_action@ =~= ta0.push(traces_action@.last())); assert forall|i: int| 0 <= i < traces_action@.len() implies (#[trigger] traces_action@[i]).rule == route_rule(*rs[i]) by { if i < ta0.len() { assert(traces_action@[i] == ta0[i]); } } }
+    //@| before `return traces_action;`: proof { assert(fold_from(rs, request, it.index@ as int, a0) == av(current_action)); }
+}
+
 // ================================================================ C11: determinism
 use std::cmp::Ordering;
 pub assume_specification [<Ordering as PartialEq>::eq] (a: &Ordering, b: &Ordering) -> (r: bool) ensures r == (*a == *b);
@@ -664,6 +711,42 @@ pub proof fn c11_order_independent(p: Seq<RouteRef>, s: Seq<RouteRef>, request: 
         assert(s.contains(a[i]));
         assert(s.contains(b[i]));
         lemma_same_key_same_route(s, a[i], b[i]);
+    }
+    assert(a =~= b);
+}
+// ---- C17: the action trace processes the traced rules in the order of the live pipeline when ranks are distinct
+pub open spec fn distinct_ranks(s: Seq<RouteRef>) -> bool { forall|i: int, j: int| 0 <= i < s.len() && 0 <= j < s.len() && handler(#[trigger] s[i]).rank == handler(#[trigger] s[j]).rank ==> i == j }
+// ASSUMED (trusted, listed): Route::priority is `0 - rank` (IntoRoute for Rule, src/api/rule.rs, not under contract) and sort_by_key is a
+// sort: for distinct ranks the result holds the same routes in strictly descending rank order
+#[verifier::external_body]
+pub proof fn axiom_sort_prio(s: Seq<RouteRef>)
+    requires distinct_ranks(s),
+    ensures same_routes(prio_sorted(s), s), forall|i: int, j: int| 0 <= i < j < prio_sorted(s).len() ==> handler(#[trigger] prio_sorted(s)[i]).rank > handler(#[trigger] prio_sorted(s)[j]).rank,
+{}
+pub proof fn c17_action_trace_order(traced: Seq<RouteRef>, matched: Seq<RouteRef>, request: &Request)
+    requires distinct_ranks(traced), distinct_ranks(matched), same_routes(traced, matched),
+    ensures prio_sorted(traced) == sorted_routes(matched),
+        fold_from(prio_sorted(traced), request, 0, av_default()) == fold_from(sorted_routes(matched), request, 0, av_default()),
+{
+    let a = prio_sorted(traced);
+    let b = sorted_routes(matched);
+    assert(distinct_keys(matched)) by { assert forall|i: int, j: int| 0 <= i < matched.len() && 0 <= j < matched.len() && same_key(handler(#[trigger] matched[i]), handler(#[trigger] matched[j])) implies i == j by {} }
+    axiom_sort_prio(traced);
+    axiom_sort(matched);
+    assert(strictly_sorted(hs(a))) by { assert forall|i: int, j: int| 0 <= i < j < hs(a).len() implies rule_lt(#[trigger] hs(a)[i], #[trigger] hs(a)[j]) by { assert(handler(a[i]).rank > handler(a[j]).rank); } }
+    lemma_routes_in_trans(a, traced, matched);
+    lemma_routes_in_trans(a, matched, b);
+    lemma_routes_in_trans(b, matched, traced);
+    lemma_routes_in_trans(b, traced, a);
+    lemma_keys_of_routes(a, b);
+    lemma_keys_of_routes(b, a);
+    lemma_sorted_unique(hs(a), hs(b));
+    assert(a.len() == hs(a).len() && b.len() == hs(b).len());
+    assert forall|i: int| 0 <= i < a.len() implies #[trigger] a[i] == b[i] by {
+        assert(same_key(hs(a)[i], hs(b)[i]));
+        assert(matched.contains(a[i]));
+        assert(matched.contains(b[i]));
+        lemma_same_key_same_route(matched, a[i], b[i]);
     }
     assert(a =~= b);
 }
